@@ -3853,6 +3853,15 @@ class _DiskCacheWrapper:
     def __len__(self):
         return len(self.cache)
 
+    def __getstate__(self):
+        # A pickled copy (e.g. the one a worker process of a prefetch gets) is
+        # one more user of the cache directory, not its owner: it must not
+        # remove the directory when it is released, while the dataset it was
+        # copied from and the other workers still use it.
+        state = self.__dict__.copy()
+        state['clear'] = False
+        return state
+
     def __del__(self):
         # This gets called when all references to the cache wrapper are
         # dropped and the program is still running. This includes normal
